@@ -93,6 +93,9 @@ def consistency(mk, text, root) -> list[dict]:
     return vs
 
 
+_HANGS = {"n": 0}     # non-terminating inputs met by this worker process (an enumeration stops after three)
+
+
 def check_soup(acc, text: str) -> list[dict]:
     from myst_parser.parsers.parse_html import tokenize_html
 
@@ -106,6 +109,7 @@ def check_soup(acc, text: str) -> list[dict]:
             with watchdog(20):
                 root = tokenize_html(text, rootname, convert_charrefs=conv)
         except CaseTimeout:
+            _HANGS["n"] += 1
             vs.append(mk("C16:nontermination", text, "terminates", "no result after 20s"))
             continue
         except Exception as exc:  # noqa: BLE001
@@ -144,6 +148,7 @@ def check_wellformed(acc, text: str) -> list[dict]:
         with watchdog(20):
             root = ph.tokenize_html(text)
     except CaseTimeout:
+        _HANGS["n"] += 1
         return [mk("C16:nontermination", text, "terminates", "no result after 20s")]
     except Exception as exc:  # noqa: BLE001
         return [mk(_exc_sig(exc), text, "a tree", f"{type(exc).__name__}: {exc}")]
@@ -488,6 +493,9 @@ def sub_enum(acc, shard, nshards, tier, seed):
             i += 1
             if i % nshards != shard:
                 continue
+            if _HANGS["n"] >= 3:
+                acc.notes.append("enumeration stopped after 3 non-terminating inputs")
+                return
             for v in check_wellformed(acc, text):
                 if kn.matches(v):
                     acc.known_hits[v["signature"]] += 1
